@@ -66,6 +66,10 @@ pub enum Start {
     NoWrite,
     /// &Write<&Node> through a local reference, then field!
     FieldThroughRef,
+    /// the node lives in a Gc<RefLock<Node>>; Write::from_mut on the (barrier-free) `Ref` guard, as_deref
+    RefGuard,
+    /// the same through the RefMut guard of the sanctioned borrow_mut (a barrier was issued)
+    RefMutGuard,
 }
 
 #[derive(Clone, Debug)]
@@ -217,12 +221,57 @@ impl Shape {
                 let path = self.path("root.a.f");
                 format!("let lock = &{path};\n        {}", self.store("lock"))
             }
+            Start::RefGuard | Start::RefMutGuard => String::new(),
             Start::FieldThroughRef => format!(
                 "let mut r: &Node = &*root.a;\n        let w: &Write<&Node> = Write::from_mut(&mut r);\n        let wf = field!(w, Node, f);\n        let cell = {};\n        {}",
                 self.project(0),
                 self.store("cell")
             ),
         };
+        if matches!(self.start, Start::RefGuard | Start::RefMutGuard) {
+            let guard = if self.start == Start::RefGuard { "let mut guard = root.a.borrow();" } else { "let mut guard = root.a.borrow_mut(mc);" };
+            let chain = format!("{guard}\n        let w: &Write<Node> = Write::from_mut(&mut guard).as_deref();\n        let wf = field!(w, Node, f);\n        let cell = {};\n        {}", self.project(0), self.store("cell"));
+            let read = self.read("root.a.borrow().f");
+            return format!(
+                r#"{PRELUDE}
+#[derive(Collect)]
+#[collect(no_drop)]
+struct Inner<T> {{ g: T }}
+#[derive(Collect)]
+#[collect(no_drop)]
+struct Node<'gc> {{ f: {fty} }}
+#[derive(Collect)]
+#[collect(no_drop)]
+struct Root<'gc> {{ a: Gc<'gc, RefLock<Node<'gc>>> }}
+
+fn main() {{
+    let mut arena = Arena::<Rootable![Root<'_>]>::new(|mc| Root {{ a: Gc::new(mc, RefLock::new(Node {{ f: {fnew} }})) }});
+    arena.finish_marking();
+    arena.mutate(|mc, root| {{
+        let child: C = Gc::new(mc, Static(Child(7)));
+        {chain}
+    }});
+    arena.finish_cycle();
+    let held: bool = arena.mutate(|_mc, root| {read});
+    let dropped = DROPPED.with(|d| d.get());
+    if held && dropped > 0 {{
+        println!("LOST: the child was destructed while it is still stored in a reachable object");
+        std::process::exit(3);
+    }}
+    if !held {{
+        println!("NOT-STORED");
+        std::process::exit(4);
+    }}
+    arena.finish_cycle();
+    if DROPPED.with(|d| d.get()) > 0 {{
+        println!("LOST: the child was destructed by the following cycle");
+        std::process::exit(3);
+    }}
+    println!("OK");
+}}
+"#
+            );
+        }
         let read = self.read("root.a.f");
         format!(
             r#"{PRELUDE}
@@ -294,6 +343,8 @@ pub fn shape_strategy() -> BoxedStrategy<Shape> {
         3 => Just(Start::CloneShared),
         1 => Just(Start::NoWrite),
         1 => Just(Start::FieldThroughRef),
+        3 => Just(Start::RefGuard),
+        1 => Just(Start::RefMutGuard),
     ];
     (cell, proptest::collection::vec(wrap, 0..=4), start)
         .prop_map(|(cell, mut wraps, start)| {
